@@ -2,7 +2,7 @@
 from __future__ import annotations
 
 
-def make_project(nfiles=1, nmod=1, nprog=1, nproc=1, ntype=1, nabs=0, nblock=0, nnl=0, nsub=0, ngen=0, pages=None, links=True, private_impls=False, extra_files=False):
+def make_project(nfiles=1, nmod=1, nprog=1, nproc=1, ntype=1, nabs=0, nblock=0, nnl=0, nsub=0, ngen=0, pages=None, links=True, private_impls=False, extra_files=False, footnotes=False):
     """Return {relative path: text}.  Entities are spread round-robin over `nfiles` source files.
     pages: None | depth (0, 1, 2) of a static page tree."""
     units = []  # (text)
@@ -148,6 +148,20 @@ def make_project(nfiles=1, nmod=1, nprog=1, nproc=1, ntype=1, nabs=0, nblock=0, 
         buckets[i % nfiles].append(u)
     for i, b in enumerate(buckets):
         files[f"src/file{i + 1}.f90"] = ("\n".join(b) + "\n") if b else "! empty\n"
+    if footnotes:
+        # a Markdown footnote in a later paragraph of the comments of variables, arguments and some units (whichever of them is converted last)
+        import re as _re
+        pat = _re.compile(r"^(\s*)!! (argument q|argument of msub\d+|program variable \d+|module variable \d+|doc of block data bd\d+|internal procedure of prog\d+|helper)$")
+        for name in [n for n in files if n.endswith(".f90")]:
+            out, k = [], 0
+            for line in files[name].split("\n"):
+                out.append(line)
+                m = pat.match(line)
+                if m:
+                    k += 1
+                    ind = m.group(1)
+                    out += [f"{ind}!!", f"{ind}!! more about it[^fn{k}] in a second paragraph", f"{ind}!!", f"{ind}!! [^fn{k}]: the footnote text number {k}"]
+            files[name] = "\n".join(out)
     if extra_files:
         # non-Fortran sources documented through `extra_filetypes` (the caller sets the option)
         files["src/run_model.sh"] = "#!/bin/sh\n#! a shell script shipped with the sources\necho run\n"
